@@ -281,7 +281,7 @@ impl Check for C19Check {
         "exploration"
     }
     fn rule(&self) -> String {
-        "scenario = a simulated run: 1..=4 files with 0..=60 events each (main events mostly light: TRG bank + a few wire/pad banks; Chronobox, sequencer and other-id events interleaved; undecodable main events of kinds no/two/bad TRG, unknown bank, bad ADC payload at the start, middle and end), a TRG 62.5 MHz counter advanced by seeded gaps (ms .. just under and over 2^32 ticks) so it wraps several times, files .mid/.mid.lz4, LE/BE, 16/32/32a-bit banks; optionally one file-level fault (file of another run, duplicate initial timestamp, unknown extension). Each scenario is executed under 3-4 configurations of alpha-g-vertices {argv permutation, RAYON_NUM_THREADS in 1,2,3,5,8,16, scheduler seed (simulated rayon-core: per-join steal / completion-order decisions), hash seed, --verbose, I/O fault seed (short reads/writes and EINTR on every read(2)/write(2) of the process, in a third of the configurations), in every fifth scenario one HARD I/O fault (EIO after a seeded share of the input bytes / ENOSPC after n bytes of CSV; a delivered hard fault allows the program to fail, a reported success is checked like any other)}; every third scenario places a decodable event exactly on TRG counter value 0, 1, 2^31 or 2^32-1 and 2 of alpha-g-trg-scalers. Oracles: I1/I2 one row per main event in order of (file initial timestamp, position), with its serial; I3 undecodable <=> empty fields, decodable and values taken from the real library in-process on the same banks; I4 trg_time differences = sum of 32-bit wrapped differences over consecutive decodable events / 62.5 MHz (+-4 ns); I5 CSV byte-identical from line 3 across all configurations; I6 faulty file sets refused without CSV. Non-trivial = at least two process runs on a run with >= 1 main event; distinct = distinct event-log hashes (file bytes, configurations, CSV bodies).".into()
+        "scenario = a simulated run: 1..=4 files with 0..=60 events each (main events mostly light: TRG bank + a few wire/pad banks; Chronobox, sequencer and other-id events interleaved; undecodable main events of kinds no/two/bad TRG, unknown bank, bad ADC payload at the start, middle and end), a TRG 62.5 MHz counter advanced by seeded gaps (ms .. just under and over 2^32 ticks) so it wraps several times, files .mid/.mid.lz4, LE/BE, 16/32/32a-bit banks; optionally one file-level fault (file of another run, duplicate initial timestamp, unknown extension). Each scenario is executed under 3-4 configurations of alpha-g-vertices {argv permutation, RAYON_NUM_THREADS in 1,2,3,5,8,16, scheduler seed (simulated rayon-core: per-join steal / completion-order decisions), hash seed, --verbose, I/O fault seed (short reads/writes and EINTR on every read(2)/write(2) of the process, in a third of the configurations), in every fifth scenario one HARD I/O fault (EIO after a seeded share of the input bytes / ENOSPC after n bytes of CSV; a delivered hard fault allows the program to fail, a reported success is checked like any other)}; every third scenario places a decodable event exactly on TRG counter value 0, 1, 2^31 or 2^32-1 and 2 of alpha-g-trg-scalers. Oracles: I1/I2 one row per main event in order of (file initial timestamp, position), with its serial; I3 undecodable <=> empty fields, decodable and values taken from the real library in-process on the same banks; I4 trg_time differences = sum of 32-bit wrapped differences over consecutive decodable events / 62.5 MHz (+-4 ns); I5 CSV byte-identical from line 3 across all configurations; I6 faulty file sets refused (non-zero exit). Non-trivial = at least two process runs on a run with >= 1 main event; distinct = distinct event-log hashes (file bytes, configurations, CSV bodies).".into()
     }
     fn assumptions(&self) -> Vec<String> {
         vec![
@@ -296,7 +296,7 @@ impl Check for C19Check {
                "simulated": ["read(2)/write(2) short counts and EINTR (LD_PRELOAD, seeded)", "rayon-core scheduler (/verif/shims/rayon-core: seeded, one thread at a time, real OS worker threads with the configured stack size)", "OS randomness for hash keys (getrandom via LD_PRELOAD)"],
                "model": ["TRG 62.5 MHz counter / run timeline", "event builder incl. undecodable events", "MIDAS logger", "operator (argv, env)"],
                "stub": [], "filesystem": "real, private scratch directory under /dev/shm",
-               "cross_check": "every 16th quick scenario and every 4th thorough scenario also runs a configuration on the build with the REAL rayon-core (real threads) and requires the same bytes (stub-fidelity check of the simulated scheduler)"})
+               "cross_check": "every 8th quick scenario and every 4th thorough scenario also runs a configuration on the build with the REAL rayon-core (real threads) and requires the same bytes (stub-fidelity check of the simulated scheduler)"})
     }
     fn count(&self, tier: Tier) -> u64 {
         match tier {
@@ -370,7 +370,7 @@ impl Check for C19Check {
                 io_hard: None,
             })
             .collect();
-        if (tier == Tier::Thorough && index % 4 == 0) || (tier == Tier::Quick && index % 16 == 0) {
+        if (tier == Tier::Thorough && index % 4 == 0) || (tier == Tier::Quick && index % 8 == 0) {
             // stub-fidelity cross-check on real threads
             cfgs.push(RunCfg { argv_seed: r.next_u64(), threads: *r.pick(&[1u32, 2, 5, 16]), sched_seed: 0, hash_seed: r.next_u64() >> 1, verbose: false, real_rayon: true, sched_replay: None, io_seed: None, io_hard: None });
         }
@@ -625,7 +625,8 @@ impl Check for C19Check {
                 continue;
             }
             if fault_active {
-                if res.success || res.csv.is_some() {
+                // "refused" = the program fails; the statement says nothing about a file left behind
+                if res.success {
                     viol.push(Violation {
                         invariant: "C19.I6-bad-file-set-not-refused".into(),
                         signature: format!("vertices:not-refused:{fault_kind}"),
@@ -708,7 +709,8 @@ impl Check for C19Check {
                 continue;
             }
             if fault_active {
-                if res.success || res.csv.is_some() {
+                // "refused" = the program fails; the statement says nothing about a file left behind
+                if res.success {
                     viol.push(Violation {
                         invariant: "C19.I6-bad-file-set-not-refused".into(),
                         signature: format!("scalers:not-refused:{fault_kind}"),
